@@ -335,12 +335,125 @@ def run(ck):
                 sim.drain()
                 if est[0].state.name == 'ESTABLISHED':
                     ck.count('endpoint.genuine_request_answered_afterwards')
+    # (5) modified copies in every position of every exchange kind
+    for h in range(10 if not thorough else 600):
+        n += 1
+        if not ck.mine(n):
+            continue
+        rng3 = ck.rng('copies', h)
+        kw = histories.gen_pair_kw(rng3, h, histories.DH_QUICK[:4], heavy_ok=False)
+        copies_case(ck, ck.seed * 7919 + h, COPY_KINDS[h % len(COPY_KINDS)], rng3, kw)
+
+
+COPY_VARIANTS = ('iv-bit', 'ciphertext-bit', 'checksum-bit', 'checksum-first-octets', 'version-octet', 'exchange-type-octet', 'next-payload-octet', 'length-octet',
+                 'truncated-by-1', 'truncated-by-16', 'extended-by-1', 'extended-with-length-fixed', 'header-only', 'forged-body', 'forged-longer-body-with-length-fixed')
+COPY_KINDS = ('dpd', 'delete-ike', 'rekey-ike', 'rekey-child', 'delete-child')
+
+
+def modified_copy(rng, good, variant):
+    def flip(pos, bit=None):
+        d = bytearray(good)
+        d[pos] ^= (1 << rng.randrange(8)) if bit is None else bit
+        return bytes(d)
+    n = len(good)
+    return {'iv-bit': lambda: flip(32 + rng.randrange(4)), 'ciphertext-bit': lambda: flip((32 + n) // 2), 'checksum-bit': lambda: flip(n - 1),
+            'checksum-first-octets': lambda: flip(n - 8), 'version-octet': lambda: flip(17, 0x01), 'exchange-type-octet': lambda: flip(18, 0x01),
+            'next-payload-octet': lambda: flip(16, 0x01), 'length-octet': lambda: flip(27, 0x01), 'truncated-by-1': lambda: good[:-1], 'truncated-by-16': lambda: good[:-16],
+            'extended-by-1': lambda: good + b'\0', 'extended-with-length-fixed': lambda: good[:24] + (n + 8).to_bytes(4, 'big') + good[28:] + bytes(8),
+            'header-only': lambda: good[:28], 'forged-body': lambda: good[:28] + rng.randbytes(n - 28),
+            'forged-longer-body-with-length-fixed': lambda: good[:24] + (n + 16).to_bytes(4, 'big') + rng.randbytes(n - 12)}[variant]()
+
+
+def ep_state(ep):
+    return ([(s_.state.name, s_.my_msg_id, s_.peer_msg_id, len(s_.child_sas), s_.new_ike_sa is not None) for s_ in ep.ctl.ike_sas], len(ep.kernel.requests))
+
+
+def copies_case(ck, seed, kind, rng, kw):
+    """Modified copies of authentic datagrams delivered to a real endpoint in every position of an exchange: in front of the genuine request, BEHIND it (the request
+    is already answered: only the genuine octets are a retransmission), and in place of the awaited response in every state that waits for one. A datagram that does not
+    verify is never answered and never moves any state; the genuine datagram then does what it always does."""
+    sim, a, b = S.make_pair(seed, **kw)
+    sim.acquire(a, 0)
+    sim.drain()
+    ia = [x for x in a.ctl.ike_sas if x.state.name == 'ESTABLISHED']
+    ib = [x for x in b.ctl.ike_sas if x.state.name == 'ESTABLISHED']
+    if not ia or not ib or not ia[0].child_sas:
+        ck.count('copies.handshake_failed')
+        return
+    case = {'family': 'copies', 'kind': kind, 'conf': kw}
+    ike = ia[0]
+    t = sim.clock.t
+    if kind == 'dpd':
+        ike.start_dpd_at = t - 1
+        a.step('tick')
+    elif kind == 'delete-ike':
+        ike.delete_ike_sa_at = t - 1
+        a.step('tick')
+    elif kind == 'rekey-ike':
+        ike.rekey_ike_sa_at = t - 1
+        a.step('tick')
+    else:
+        sim.expire(a, ike.child_sas[0].inbound_spi, kind == 'delete-child', proto=50 if kw.get('ipsec_proto', 'esp') == 'esp' else 51)
+    A, B = str(a.addrs[0]), str(b.addrs[0])
+
+    def feed(ep, src, dst, good, where, waiting):
+        for variant in COPY_VARIANTS:
+            bad = modified_copy(rng, good, variant)
+            before = ep_state(ep)
+            sim.inject(ep, src, dst, bad)
+            out = list(sim.net)
+            sim.net.clear()
+            ck.count(f'copies.{where}')
+            ck.seen('copies.positions', (kind, where, waiting, variant))
+            ck.nontrivial(('copies', kind, where, waiting, variant))
+            if out or ep_state(ep) != before:
+                ck.violation(f'modified-copy-of-an-authentic-datagram-{"answered" if out else "acted-on"}:{where}:{waiting}:{variant.split("-")[0]}',
+                             {'variant': variant, 'datagrams_sent': len(out), 'before': before, 'after': ep_state(ep)}, case)
+                return False
+        return True
+
+    for stage in range(2):
+        reqs = [d for d in sim.net if d.dst == B]
+        sim.net.clear()
+        if not reqs:
+            break
+        good = reqs[0].data
+        waiting = next((x.state.name for x in a.ctl.ike_sas if x.state.name.endswith('_REQ_SENT')), 'none')
+        if not feed(b, A, B, good, 'in-front-of-the-genuine-request', waiting):
+            return
+        sim.inject(b, A, B, good)
+        res = [d for d in sim.net if d.dst == A]
+        sim.net.clear()
+        if not res:
+            ck.count('copies.genuine_request_not_answered')
+            return
+        if not feed(b, A, B, good, 'behind-the-answered-request', waiting):
+            return
+        sim.inject(b, A, B, good)
+        again = [d for d in sim.net if d.dst == A]
+        sim.net.clear()
+        if again and again[0].data == res[0].data:
+            ck.count('copies.genuine_copy_answered_from_the_stored_response')
+        if not feed(a, B, A, res[0].data, 'in-place-of-the-awaited-response', waiting):
+            return
+        before = ep_state(a)
+        sim.inject(a, B, A, res[0].data)
+        if ep_state(a) != before:
+            ck.count('copies.genuine_response_then_accepted')
+            ck.seen('copies.waiting_states', waiting)
+        # after an IKE_SA rekey the initiator deletes the replaced IKE_SA: a second exchange, in the rarest waiting state of all
+        if kind != 'rekey-ike':
+            break
 
 
 def verdict(ck):
     c = ck.counters
     ck.floor('modified copies of authentic requests fed to a real endpoint', c['endpoint.tampered_copies_of_authentic_requests'], 40)
     ck.floor('genuine requests answered after their modified copies', c['endpoint.genuine_request_answered_afterwards'], 30)
+    ck.floor('modified copies delivered behind an already answered request', c['copies.behind-the-answered-request'], 60)
+    ck.floor('modified copies delivered in place of an awaited response', c['copies.in-place-of-the-awaited-response'], 60)
+    ck.floor('waiting states in which a modified response was delivered and the genuine one then accepted', len(ck.sets['copies.waiting_states']), 4)
+    ck.floor('genuine copies of an answered request answered from the stored response', c['copies.genuine_copy_answered_from_the_stored_response'], 5)
     ck.floor('round trips', c['roundtrip.messages'], 700)
     ck.floor('reference-sealed messages with extra padding parsed', c['roundtrip.extra_padding'], 2000)
     ck.floor('round trips through a Crypto object that protected earlier messages', c['roundtrip.session_messages'], 60)
